@@ -179,7 +179,7 @@ theorem nodup_fst_inj {α β} (l : List (α × β)) (h : (l.map (·.1)).Nodup) (
 theorem mapped_inv (f : Fld) (a : String) (c : Nat) (h : (f.rDim a).bind f.vdimIndex = some c) :
     ∃ p vs, p ∈ f.vmap ∧ p.2 = a ∧ f.vdims = some vs ∧ c < vs.length ∧ vs.getD c "" = p.1 := by
   unfold Fld.rDim at h
-  cases hf : f.vmap.find? (fun p => p.2 == a) with
+  cases hf : f.vmap.reverse.find? (fun p => p.2 == a) with
   | none => rw [hf] at h; cases h
   | some p =>
     rw [hf] at h
@@ -192,7 +192,7 @@ theorem mapped_inv (f : Fld) (a : String) (c : Nat) (h : (f.rDim a).bind f.vdimI
       simp only at h
       unfold indexOf? at h
       obtain ⟨_, e, hl⟩ := indexOf_go_get p.1 vs 0 c h
-      refine ⟨p, vs, List.mem_of_find?_eq_some hf, ?_, rfl, hl, e⟩
+      refine ⟨p, vs, List.mem_reverse.mp (List.mem_of_find?_eq_some hf), ?_, rfl, hl, e⟩
       have := List.find?_some hf
       simpa using this
 
